@@ -168,6 +168,8 @@ class sx_bytes(metaclass=_ShadowMeta):
             conv = getattr(a[0], '__sx_bytes__', None)
             if conv is not None:
                 return conv()
+            if isinstance(a[0], _chars().SymChars):
+                return a[0].encode_ascii()
             if isinstance(a[0], (list, tuple)) and any(isinstance(v, SymInt) for v in a[0]):
                 return _bytes().SymBytes(list(a[0]))
             if isinstance(a[0], SymInt):
